@@ -122,6 +122,10 @@ pub struct Opts {
     pub excl_f9_pow2_object: bool,
     pub excl_f5_global_logical_assign_in_operand: bool,
     pub excl_f17_catch_in_finally: bool,
+    /// F28: array destructuring keeps calling next() after the iterator reported done
+    pub excl_f28_destructure_exhausted_iterator: bool,
+    /// F29: an iterator protocol error inside a destructuring pattern leaves the iterator stack unbalanced
+    pub excl_f29_broken_iterator_in_pattern: bool,
 }
 
 impl Opts {
@@ -158,6 +162,8 @@ impl Opts {
             excl_f9_pow2_object: true,
             excl_f5_global_logical_assign_in_operand: true,
             excl_f17_catch_in_finally: true,
+            excl_f28_destructure_exhausted_iterator: true,
+            excl_f29_broken_iterator_in_pattern: true,
         }
     }
     pub fn scope() -> Self {
@@ -307,7 +313,8 @@ impl<'a> Gen<'a> {
             2 => {
                 let ops = ["+", "-", "*", "/", "%", "|", "&", "^", "<<", ">>", ">>>", "**"];
                 let op = *self.t.pick(&ops);
-                let l = self.num_operand(d - 1);
+                // `**` is implementation-approximated for non-integral operands: small integer bases only
+                let l = if op == "**" { format!("({})", self.t.range(-9, 9)) } else { self.num_operand(d - 1) };
                 let pin = self.pin_of(&l);
                 let r = if op == "**" { format!("{}", self.t.range(0, 3)) } else { self.num_operand(d - 1) };
                 self.unpin(pin);
@@ -1538,7 +1545,11 @@ impl<'a> Gen<'a> {
         self.kinds.insert("with");
         self.label("with");
         let nums = self.vars_of(Ty::Num);
-        let shadow = nums.first().map(|v| v.name.clone()).unwrap_or_else(|| "a".into());
+        let shadow_var = nums.first().cloned();
+        let shadow = shadow_var.as_ref().map(|v| v.name.clone()).unwrap_or_else(|| "a".into());
+        // F30: an assignment to a name that statically resolves to a const throws even when a `with`
+        // object provides a writable property of that name
+        let shadow_is_const = shadow_var.as_ref().is_some_and(|v| v.kind == Kind::Const);
         let e = self.num(1);
         out.push_str(&format!("with ({{ {shadow}: {e}, a: 1 }}) {{\nprint(show({shadow}), a);\n"));
         if self.t.chance(120) {
@@ -1550,7 +1561,12 @@ impl<'a> Gen<'a> {
         }
         self.block(out, 2);
         if shadow != "a" {
-            out.push_str(&format!("print(show({shadow}));\n{shadow} = {shadow} + 1;\nprint(typeof {shadow}, show({shadow}));\n"));
+            if shadow_is_const {
+                self.excluded.push("f30-assign-const-shadowed-by-with");
+                out.push_str(&format!("print(show({shadow}));\n"));
+            } else {
+                out.push_str(&format!("print(show({shadow}));\n{shadow} = {shadow} + 1;\nprint(typeof {shadow}, show({shadow}));\n"));
+            }
         }
         out.push_str("}\n");
         if shadow != "a" {
@@ -1594,6 +1610,10 @@ impl<'a> Gen<'a> {
             } else {
                 self.lit_leaf()
             };
+            if op == "**" && !e.chars().all(|c| c.is_ascii_digit()) {
+                // keep exponentiation exact: integer literal base
+                e = format!("{}", self.t.range(0, 9));
+            }
             let (l2, r2) = if op == "**" && (e.starts_with('-') || e.starts_with('+') || e.starts_with("typeof") || e.starts_with('!')) { (format!("({e})"), r) } else { (e, r) };
             if op == "??" || op == "&&" || op == "||" {
                 e = format!("(({l2}) {op} ({r2}))");
@@ -1648,11 +1668,20 @@ impl<'a> Gen<'a> {
         self.kinds.insert("iterable");
         self.label("custom-iterable");
         let tag = self.fresh("it");
-        let n = self.t.below(4);
+        let mut n = self.t.below(4);
         let wr = if self.t.chance(200) { "true" } else { "false" };
         let a = self.fresh("d");
         let b = self.fresh("d");
-        match self.t.below(9) {
+        let mut which = self.t.below(9);
+        if self.o.excl_f28_destructure_exhausted_iterator && (which == 2 || which == 6) && n < 2 {
+            self.excluded.push("f28-destructure-exhausted-iterator");
+            n = 2 + n;
+        }
+        if self.o.excl_f29_broken_iterator_in_pattern && which == 8 {
+            self.excluded.push("f29-broken-iterator-in-pattern");
+            which = 3;
+        }
+        match which {
             0 => out.push_str(&format!("for (const {a} of mkIt('{tag}', {n}, {wr})) {{ print('body', {a}); if ({a} === '{tag}1') break; }}\n")),
             1 => out.push_str(&format!("try {{ for (const {a} of mkIt('{tag}', {n}, {wr})) {{ print('body', {a}); if ({a} === '{tag}0') throw 'thrown in body'; }} }} catch (e) {{ print('caught', show(e)); }}\n")),
             2 => {
